@@ -575,6 +575,10 @@ func negIf(f *Formula, neg bool) *Formula {
 
 // Implies: every disjunct entails f. The second result is a disjunct that does not.
 func (s State) Implies(f *Formula) (bool, string) {
+	if len(s.D) == 0 {
+		// nothing reaches this point: callers that want vacuous truth test Reachable() themselves
+		return false, "unreachable"
+	}
 	for _, d := range s.D {
 		if !d.entails(f, false) {
 			return false, d.String()
